@@ -749,6 +749,10 @@ static void single_object_case(Src& s, Ctx& ctx, bool random_state) {
         enforce_capacity(*obj, ctx, prog);
         ctx.label("random-state-object");
     } else ctx.label("default-state-object");
+    if ((style & 0xc0) == 0xc0) {
+        // the caching wrapper forwards matches_response to a copy of the object: the same clause applies to it
+        if (PDU* w = make_cacher_of(*obj)) { obj.reset(w); name = "PDUCacher<" + name + ">"; ctx.label("pdu-cacher-object"); }
+    }
     Bytes content = gen_content(s, len, style);
     if (ctx.logging()) {
         std::string p;
